@@ -34,6 +34,7 @@ func main() {
 	out := flag.String("out", "/tmp/mut", "output directory")
 	max := flag.Int("max", 800, "maximum number of mutants")
 	seed := flag.Int64("seed", 1, "sampling seed")
+	flag.StringVar(&opSet, "ops", "classic", "operator set: classic (conditions, operators, deleted statements, literals) or extra (texts inside string literals, swapped arguments, dropped else / case bodies, removed negations)")
 	flag.Parse()
 	os.MkdirAll(*out, 0o755)
 	var files []string
@@ -115,6 +116,99 @@ func main() {
 	os.Remove(filepath.Join(*out, "b.go"))
 }
 
+var opSet = "classic"
+
+// textSwaps: what is exchanged inside string literals (the generator's Rego templates, report keys, messages)
+var textSwaps = [][2]string{
+	{" == ", " != "}, {" != ", " == "}, {" >= ", " > "}, {" <= ", " < "}, {" > ", " >= "}, {" < ", " <= "},
+	{"not ", ""}, {"[_]", "[0]"}, {"true", "false"}, {"false", "true"}, {" = ", " != "}, {"count(", "sum("},
+	{"violation", "warning"}, {"warning", "info"}, {"@id", "@type"}, {",", ""},
+}
+
+func collectExtra(fset *token.FileSet, af *ast.File, file string) []site {
+	var out []site
+	ast.Inspect(af, func(n ast.Node) bool {
+		switch x := n.(type) {
+		case *ast.ImportSpec:
+			return false
+		case *ast.BasicLit:
+			if x.Kind != token.STRING || len(x.Value) > 1500 || len(x.Value) < 4 {
+				return true
+			}
+			old := x.Value
+			per := 0
+			for _, sw := range textSwaps {
+				if per >= 4 {
+					break
+				}
+				idx := strings.Index(old[1:len(old)-1], sw[0])
+				if idx < 0 {
+					continue
+				}
+				idx++
+				nw := old[:idx] + sw[1] + old[idx+len(sw[0]):]
+				per++
+				out = append(out, site{file, x.Pos(), "text " + strconvQuote(sw[0]) + "->" + strconvQuote(sw[1]), func() func() {
+					x.Value = nw
+					return func() { x.Value = old }
+				}, exprString(fset, x)})
+			}
+		case *ast.CallExpr:
+			for i := 0; i+1 < len(x.Args); i++ {
+				i := i
+				a, b := x.Args[i], x.Args[i+1]
+				same := false
+				switch a.(type) {
+				case *ast.Ident:
+					_, same = b.(*ast.Ident)
+				case *ast.SelectorExpr:
+					_, same = b.(*ast.SelectorExpr)
+				case *ast.BasicLit:
+					bl, ok := b.(*ast.BasicLit)
+					same = ok && bl.Kind == a.(*ast.BasicLit).Kind
+				}
+				if !same || exprString(fset, a) == exprString(fset, b) {
+					continue
+				}
+				out = append(out, site{file, a.Pos(), "swap-args", func() func() {
+					x.Args[i], x.Args[i+1] = b, a
+					return func() { x.Args[i], x.Args[i+1] = a, b }
+				}, exprString(fset, x)})
+			}
+		case *ast.IfStmt:
+			if x.Else != nil {
+				els := x.Else
+				out = append(out, site{file, x.Else.Pos(), "drop-else", func() func() {
+					x.Else = nil
+					return func() { x.Else = els }
+				}, exprString(fset, x.Cond)})
+			}
+		case *ast.CaseClause:
+			if len(x.Body) > 0 && x.List != nil {
+				body := x.Body
+				if _, isRet := body[len(body)-1].(*ast.ReturnStmt); !isRet {
+					out = append(out, site{file, x.Pos(), "empty-case", func() func() {
+						x.Body = nil
+						return func() { x.Body = body }
+					}, exprString(fset, x.List[0])})
+				}
+			}
+		case *ast.UnaryExpr:
+			if x.Op == token.NOT {
+				inner := x.X
+				out = append(out, site{file, x.Pos(), "drop-not", func() func() {
+					x.X = &ast.UnaryExpr{Op: token.NOT, X: &ast.ParenExpr{X: inner}}
+					return func() { x.X = inner }
+				}, exprString(fset, x)})
+			}
+		}
+		return true
+	})
+	return out
+}
+
+func strconvQuote(s string) string { return fmt.Sprintf("%q", s) }
+
 func sitesOf(file string) []site {
 	fset := token.NewFileSet()
 	af, err := parser.ParseFile(fset, file, nil, parser.ParseComments)
@@ -135,6 +229,9 @@ func exprString(fset *token.FileSet, e ast.Node) string {
 }
 
 func collect(fset *token.FileSet, af *ast.File, file string) []site {
+	if opSet == "extra" {
+		return collectExtra(fset, af, file)
+	}
 	var out []site
 	swap := map[token.Token]token.Token{token.EQL: token.NEQ, token.NEQ: token.EQL, token.LSS: token.LEQ, token.LEQ: token.LSS, token.GTR: token.GEQ, token.GEQ: token.GTR, token.LAND: token.LOR, token.LOR: token.LAND, token.ADD: token.SUB, token.SUB: token.ADD}
 	ast.Inspect(af, func(n ast.Node) bool {
